@@ -194,8 +194,8 @@ Section Resolve.
     destruct (is_valid (resolve_from_cache c now ty (alias_of (e_rr p)))) eqn:Ev.
     - specialize (IH rset). destruct (ru_ptrs c now ty ch updated rest rset) as [[[[o res] unres] rem] rset'].
       simpl in *. constructor; [|assumption]. unfold ok. simpl. now apply resolve_justified.
-    - specialize (IH (set_remove (alias_of (e_rr p)) rset)).
-      destruct (ru_ptrs c now ty ch updated rest (set_remove (alias_of (e_rr p)) rset))
+    - specialize (IH rset).
+      destruct (ru_ptrs c now ty ch updated rest rset)
         as [[[[o res] unres] rem] rset']. simpl in *. assumption.
   Qed.
 
